@@ -85,6 +85,7 @@ MUTANTS = {
     'revert_F8_hash_placeholder_prefix_match': ('C13', {'wrong_distribution'}, 'git:a461d9d', "'#' resolved against 'Reservoir Volume Option'"),
     'revert_F9_thousands_separators': ('C14', {'row_malformed', 'stats_mismatch'}, 'git:31af434', 'value with separators tears the row'),
     'revert_F10_missing_output_skipped': ('C14', {'row_malformed'}, 'git:fc44f1f', 'column dropped when the report lacks an output'),
+    'revert_F11_json_addons_override': ('C10', {'json_mismatch'}, 'git:389d0cd', 'add-ons dictionary merged over the economics results in the JSON'),
     'revert_F7_cli_exit_0_on_bare_sys_exit': ('C20', {'exit_status'}, 'git:9802755', 'bare sys.exit() -> exit status 0'),
     'hip_parser_drops_exponent': ('C10', {'parse_mismatch'}, [
         ('src/hip_ra/__init__.py', "([0-9eE.+-]+)", "([0-9.+-]+)")], 'HIP-RA-X fields printed in scientific notation vanish from the client result'),
